@@ -57,6 +57,7 @@ CANARIES = {
         ("relaxed-reference-not-custom", "stix2/properties.py", "text", ["            has_custom = has_custom or not (\n                is_stix_type(obj_type, self.spec_version, *self.generics)\n                or obj_type in self.specifics\n            )\n", "            pass\n"], "C04.flag-back"),
         ("extension-property-custom-via-custom-properties", "stix2/base.py", "text", ["            self._properties.keys() - registered_toplevel_extension_props.keys()\n        if all_custom_prop_names:", "            self._properties.keys()\n        if all_custom_prop_names:"], "C04.flag-back"),
         ("escape-on-types-without-extension-point", "stix2/base.py", "text", ["        if has_unregistered_toplevel_extension and \\\n                \"extensions\" not in self._properties and \\\n", "        if False and \\\n                \"x\" not in self.__dict__ and \\\n"], "C04.extra-props"),
+        ("switch-read-from-kwargs-with-permissive-default", "stix2/v21/common.py", "text", ["                    allow_custom=kwargs.get('allow_custom', False),\n                    interoperability=kwargs.get('interoperability', False),\n                    **defn\n", "                    allow_custom=kwargs.get('allow_custom', True),\n                    interoperability=kwargs.get('interoperability', False),\n                    **defn\n"], "C04.forward"),
     ],
     "C05": [
         ("fudge-not-strict", "stix2/versioning.py", "flip-compare", ["_fudge_modified", "LtE -> Lt"], "C05.granularity"),
@@ -64,6 +65,7 @@ CANARIES = {
         ("supplied-equal-accepted", "stix2/versioning.py", "flip-compare", ["new_version", "LtE -> Lt", "new_modified"], "C05.strict-compare"),
         ("change-through-custom-properties", "stix2/versioning.py", "text", ["        changed_properties.update(kwargs[\"custom_properties\"])\n", "        pass\n"], "C05.unmodifiable"),
         ("custom-properties-change-loses-to-old-value", "stix2/versioning.py", "text", ["                new_obj_inner.pop(prop, None)\n", "                pass\n"], "C05.pipeline"),
+        ("detected-version-not-handed-back", "stix2/versioning.py", "text", ["    return is_versionable, stix_version\n", "    return is_versionable, None\n"], "C05.granularity"),
     ],
     "C06": [
         ("contributing-name-lost", "stix2/v21/observables.py", "drop-list-element", ["'serial_number'"], "C06.table"),
@@ -116,6 +118,7 @@ CANARIES = {
         ("hex-validator-dollar", "stix2/patterns.py", "text", ["'^([a-fA-F0-9]{2})+\\Z'", "'^([a-fA-F0-9]{2})+$'"], "C10.hex-literal-form"),
         ("lenient-base64-validation", "stix2/patterns.py", "text", ["base64.b64decode(value, validate=True)", "base64.b64decode(value)"], "C10.binary-literal-form"),
         ("path-text-cut-at-dots", "stix2/patterns.py", "text", ["        steps = [m.group(0) for m in _PATH_STEP_RE.finditer(path)]\n", "        steps = path.split(\".\")\n"], "C10.path-text"),
+        ("negative-float-literal-stays-a-raw-node", "stix2/pattern_visitor.py", "text", ["node.symbol.type == self.parser_class.FloatPosLiteral or node.symbol.type == self.parser_class.FloatNegLiteral", "node.symbol.type == self.parser_class.FloatPosLiteral"], "C10.token-domain"),
     ],
     "C11": [
         ("overwrite-refusal-removed", "stix2/datastore/filesystem.py", "drop-raise-guard", ["_check_path_and_write", "os.path.isfile"], "C11.check-before-write"),
@@ -136,6 +139,7 @@ CANARIES = {
         ("setattr-guard-inverted", "stix2/base.py", "negate-if", ["_STIXBase.__setattr__"], "C13.immutable-api"),
         ("underscore-properties-assignable", "stix2/base.py", "text", ['        if not name.startswith("_") or \\\n                name in self.__dict__.get("_inner", ()):', '        if not name.startswith("_"):'], "C13.immutable-api"),
         ("shared-default-factory", "stix2/environment.py", "text", ["def __init__(self, factory=None, store=None, source=None, sink=None):", "def __init__(self, factory=ObjectFactory(), store=None, source=None, sink=None):"], "C13.history-independence"),
+        ("class-properties-mutated-through-self", "stix2/v20/common.py", "text", ["self._properties = copy.deepcopy(self._properties)", "self._properties = self._properties"], "C13.history-independence"),
     ],
     "C14": [
         ("version-positional", "stix2/datastore/memory.py", "kw-to-positional", ["_add", "version=version", "parse("], "C14.binding"),
